@@ -5,7 +5,8 @@ boost factor and a fake `random` returning fixed dyadic draws in (0,1) (every
 float operation is then exact and observations are exact Fractions).  Counters
 and the complete internal array (class, base, boost, inserted_at, sequence,
 object of every entry) are observed after every operation and compared in-kernel
-with the Coq model (`pos_run`, Queue/PQCorr.v; runner and printer are C17's).
+with the Coq model (`pos_run`, Queue/PQCorr.v, reached through the run-length decoder
+`boost_run` of Queue/BoostCorr.v; the implementation runner is C17's `impl_pos`).
 
 Histories: busy periods of arbitrary length, drains to empty any number of
 times, then a straggler under a sustained load of more urgent entries, queue
@@ -32,16 +33,108 @@ from __future__ import annotations
 import random
 from fractions import Fraction
 
+from .. import coqlit as L
 from ..framework import Prop, Stream
-from .c17 import coq_pos, fr, impl_pos
+from .c17 import fr, impl_pos
 
 APPENDS = ("append", "append_pri", "insert")
+
+
+# ----------------------------------------------------------------------------
+# compact cases.  A case is {"factor", "pat", "nd", "segs", "meta"}: the draw
+# stream is the first `nd` elements of pat pat pat ..., the operations are the
+# run-length encoded codes `segs` = [[count, [code, ...]], ...] (decoder:
+# coq/theories/Queue/BoostCorr.v, mirrored by expand_case below):
+#   0 popleft | 1 insert(0, next object) | c >= 2: append_pri (even) / append (odd)
+#   of the next object with priority c // 2 - 40.  Objects are 1, 2, 3, ...
+# ----------------------------------------------------------------------------
+def code_of(op):
+    k = op[0]
+    if k == "popleft":
+        return 0
+    if k == "insert":
+        assert op[1] == 0
+        return 1
+    p = fr(op[2])
+    assert p.denominator == 1 and -39 <= p <= 200
+    return 2 * (int(p) + 40) + (1 if k == "append" else 0)
+
+
+def decode_codes(codes):
+    ops = []
+    nxt = 1
+    for c in codes:
+        if c == 0:
+            ops.append(["popleft"])
+        elif c == 1:
+            ops.append(["insert", 0, nxt]); nxt += 1
+        else:
+            ops.append(["append_pri" if c % 2 == 0 else "append", nxt, [c // 2 - 40, 1]]); nxt += 1
+    return ops
+
+
+def compress(codes):
+    """greedy run-length encoding with block periods 1..8"""
+    segs = []
+    lit = []
+    i = 0
+    n = len(codes)
+    while i < n:
+        best = None
+        for per in range(1, 9):
+            blk = codes[i:i + per]
+            if len(blk) < per:
+                break
+            r = 1
+            while codes[i + r * per:i + (r + 1) * per] == blk:
+                r += 1
+            if r >= 2 and r * per >= 6 and (best is None or r * per > best[0] * best[1]):
+                best = (r, per)
+        if best:
+            if lit:
+                segs.append([1, lit]); lit = []
+            segs.append([best[0], codes[i:i + best[1]]])
+            i += best[0] * best[1]
+        else:
+            lit.append(codes[i]); i += 1
+    if lit:
+        segs.append([1, lit])
+    return segs
+
+
+def flat_codes(case):
+    out = []
+    for cnt, blk in case["segs"]:
+        out.extend(blk * cnt)
+    return out
+
+
+def expand_case(case):
+    pat = case["pat"]
+    return {"factor": case["factor"],
+            "draws": [pat[i % len(pat)] for i in range(case["nd"])] if pat else [],
+            "ops": decode_codes(flat_codes(case))}
+
+
+def impl(case):
+    return impl_pos(expand_case(case))
+
+
+def to_coq(case):
+    segs = L.lst([L.pair(str(int(cnt)), "[" + ";".join(str(int(c)) for c in blk) + "]")
+                  for cnt, blk in case["segs"]])
+    return ("(" + L.q(fr(case["factor"])) + ", (" + L.lst([L.q(fr(d)) for d in case["pat"]]) + ", "
+            + str(int(case["nd"])) + "), " + segs + ")")
 
 
 # ----------------------------------------------------------------------------
 # oracle
 # ----------------------------------------------------------------------------
 def oracle(case, ob):
+    return oracle_expanded(expand_case(case), ob)
+
+
+def oracle_expanded(case, ob):
     ops = case["ops"]
     f = fr(case["factor"])
     ndraws = len(case["draws"])
@@ -251,12 +344,12 @@ class Builder:
                 self.pop()
                 if flagged:
                     self.insert0()
-                    if posmode == 1 and i % 2 == 0:
+                    if posmode <= 2 and i % 4 == 0:
                         self.insert0()
                 self.append(lp)
                 if flagged:
                     self.pop()
-                    if posmode == 1 and i % 2 == 0:
+                    if posmode <= 2 and i % 4 == 0:
                         self.pop()
             else:
                 if flagged:
@@ -273,7 +366,11 @@ def draws_for(pattern, n):
 
 
 def mk_case(b: Builder, factor, pattern, ndraws=64, **meta):
-    return {"factor": list(factor), "draws": draws_for(pattern, ndraws), "ops": b.ops, "meta": meta}
+    codes = [code_of(op) for op in b.ops]
+    case = {"factor": list(factor), "pat": [list(d) for d in pattern], "nd": ndraws,
+            "segs": compress(codes), "meta": meta}
+    assert decode_codes(flat_codes(case)) == b.ops
+    return case
 
 
 def K_of(L):
@@ -283,52 +380,57 @@ def K_of(L):
 def gen(rng: random.Random, tier: str):
     quick = tier == "quick"
     # ---- bounded-exhaustive structured scope
-    Ns = (0, 3, 12, 30) if quick else (0, 1, 3, 11, 12, 13, 30, 64)
+    hist = ((0, 1), (3, 1), (13, 1), (13, 2)) if quick else (
+        (0, 1), (1, 1), (3, 1), (11, 1), (12, 1), (13, 1), (13, 2), (30, 1), (30, 3), (64, 2))
     Ls = (1, 2, 3, 5) if quick else (1, 2, 3, 4, 5, 8, 11, 12)
     facs = (FACTORS[0], FACTORS[2]) if quick else FACTORS[:4]
     pats = DRAW_PATTERNS[:2] if quick else DRAW_PATTERNS[:4]
     for fac in facs:
-        for pat in pats:
-            for N in Ns:
-                for periods in ((1,) if N == 0 else (1, 2)):
-                    for L in Ls:
-                        for posmode in (0, 1, 3):
-                            for order in ("pa", "ap"):
-                                b = Builder()
-                                if N:
-                                    for _ in range(periods):
-                                        b.busy(2, N, order)
-                                lpris = (0,) if (L + posmode) % 2 == 0 else (0, 1, 0, 2)
-                                b.straggler_phase(L, L + 1 + 2 * K_of(L + 2) + 2, 8, lpris, order, posmode)
-                                yield mk_case(b, fac, pat, 48, N=N, periods=periods, L=L, posmode=posmode,
-                                              order=order)
+        for pi, pat0 in enumerate(pats if not quick else pats[:1]):
+            for N, periods in hist:
+                for L in Ls:
+                    for posmode in (0, 2, 5):
+                        for order in ("pa", "ap"):
+                            pat = pats[(L + N) % 2] if quick else pat0
+                            b = Builder()
+                            for _ in range(periods):
+                                b.busy(2, N, order)
+                            lpris = (0,) if (L + posmode) % 2 == 0 else (0, 1, 0, 2)
+                            if quick:
+                                pairs = 2 * K_of(L + 2) + 1 if (order == "pa" and posmode == 0) else K_of(L + 2) + L + 2
+                            else:
+                                pairs = L + 1 + 2 * K_of(L + 2) + 2
+                            b.straggler_phase(L, pairs, 8, lpris, order, posmode)
+                            yield mk_case(b, fac, pat, 48, N=N, periods=periods, L=L, posmode=posmode,
+                                          order=order)
     # ---- random histories
-    nrand = 520 if quick else 5000
+    nrand = 1020 if quick else 5000
     for i in range(nrand):
         b = Builder()
         fac = rng.choice(FACTORS)
         pat = rng.choice(DRAW_PATTERNS)
-        nper = rng.choice([0, 1, 1, 2, 3])
+        nper = rng.choice([0, 0, 1, 1, 2] if quick else [0, 1, 1, 2, 3])
         total = 0
         for _ in range(nper):
-            N = rng.choice([0, 1, 5, 11, 12, 20, 40, 90] if quick else [0, 1, 12, 40, 150, 400, 900])
-            if total + N > (160 if quick else 1500):
-                N = 3
+            N = rng.choice([0, 1, 5, 12, 13] if quick else [0, 1, 12, 40, 150, 400, 900])
+            if total + N > (14 if quick else 1500):
+                N = 2
             total += N
-            w = rng.choice([1, 2, 2, 3, 6])
+            w = rng.choice([1, 1, 2, 2, 3] if quick else [1, 2, 2, 3, 6])
             pris = (0,) if rng.random() < 0.8 or N > 30 else (0, 1, 2)
             b.busy(w, N, rng.choice(["pa", "ap"]), pris)
             if rng.random() < 0.2:
                 b.pop()               # IndexError on the empty queue
-        L = rng.choice([1, 2, 2, 3, 4, 6, 9, 10, 11, 12, 13, 17]) if quick else rng.choice(
+        L = rng.choice([1, 2, 2, 2, 3, 3, 3, 4, 4, 5, 6, 9]) if quick else rng.choice(
             [1, 2, 3, 4, 6, 9, 10, 11, 12, 13, 17, 24, 33, 48])
         K = K_of(L + 2)
-        pairs = rng.choice([K - 2, K + 1, L + 1 + K, L + 1 + 2 * K + 1])
+        pairs = rng.choice([K - 2] + [K + 1] * 9 + [K + 2] * 3 + [K + 3, L + 1 + K, L + 1 + K] if quick else
+                           [K - 2, K + 1, L + 1 + K, L + 1 + 2 * K + 1])
         lpris = rng.choice([(0,), (0,), (0, 1), (1, 0, 2), (-1, 0)])
         extra = [rng.choice([3, 5, 8, 9])] * rng.choice([0, 0, 1, 2]) if L > 3 else []
         b.straggler_phase(L, pairs, rng.choice([4, 8, 9]), lpris, rng.choice(["pa", "ap"]),
-                          rng.choice([0, 0, 1, 2, 3, 5]), extra)
-        if rng.random() < 0.15:
+                          rng.choice([0, 0, 0, 3, 4, 5] if quick else [0, 0, 1, 2, 3, 5]), extra)
+        if rng.random() < (0.06 if quick else 0.15):
             # a second straggler phase after draining again
             while b.len:
                 b.pop()
@@ -336,8 +438,8 @@ def gen(rng: random.Random, tier: str):
             b.straggler_phase(L2, K_of(L2 + 2) + L2 + 3, 8, (0,), "pa", rng.choice([0, 2]))
         yield mk_case(b, fac, pat, 64, L=L, kind="random")
     # ---- long queues (lengths up to 200) after a history with drains
-    big = [(50, 1), (100, 1), (200, 0)] if quick else [(50, 1), (64, 2), (100, 1), (128, 3), (150, 0), (200, 1),
-                                                         (200, 0), (200, 2)]
+    big = [(40, 1), (200, 0)] if quick else [
+        (50, 1), (64, 2), (100, 1), (128, 3), (150, 0), (200, 1), (200, 0), (200, 2)]
     for L, posmode in big:
         b = Builder()
         b.busy(2, rng.choice([15, 33]), "pa")
@@ -355,7 +457,8 @@ def gen(rng: random.Random, tier: str):
 
 def nontrivial(case, ob):
     """at least one maintenance run and one boost were observed"""
-    if not isinstance(ob, list) or len(ob) != len(case["ops"]):
+    nops = sum(cnt * len(blk) for cnt, blk in case["segs"])
+    if not isinstance(ob, list) or len(ob) != nops:
         return False
     lm = 0
     maint = boosted = False
@@ -365,27 +468,48 @@ def nontrivial(case, ob):
         lm = st[0]
         if not boosted and any(e[2][0] != 0 for e in st[4]):
             boosted = True
-    return maint and (boosted or len(case["ops"]) >= 20)
+    return maint and (boosted or nops >= 20)
 
 
 def shrink(case):
-    ops = case["ops"]
-    n = len(ops)
-    for size in (64, 16, 4, 2, 1):
-        if size > n:
-            continue
-        for i in range(0, n - size + 1, size):
-            c = dict(case)
-            c["ops"] = ops[:i] + ops[i + size:]
-            yield c
+    segs = case["segs"]
+
+    def variant(new):
+        c = dict(case)
+        c["segs"] = [sg for sg in new if sg[0] > 0 and sg[1]]
+        return c
+    for i in range(len(segs)):
+        yield variant(segs[:i] + segs[i + 1:])
+    for i, (cnt, blk) in enumerate(segs):
+        for c2 in (cnt // 2, cnt - 1):
+            if 0 < c2 < cnt:
+                yield variant(segs[:i] + [[c2, blk]] + segs[i + 1:])
+    for i, (cnt, blk) in enumerate(segs):
+        if cnt == 1 and len(blk) > 1:
+            for j in range(len(blk)):
+                yield variant(segs[:i] + [[1, blk[:j] + blk[j + 1:]]] + segs[i + 1:])
+    if case["nd"] > 4:
+        c = dict(case); c["nd"] = case["nd"] // 2
+        yield c
 
 
 def describe(case):
-    return {"factor": case["factor"], "draws": case["draws"][:4], "meta": case.get("meta"),
-            "n_ops": len(case["ops"]), "ops_head": case["ops"][:12]}
+    ex = expand_case(case)
+    return {"factor": case["factor"], "draw_pattern": case["pat"], "n_draws": case["nd"],
+            "meta": case.get("meta"), "n_ops": len(ex["ops"]), "ops_head": ex["ops"][:12]}
 
 
 def signature(stream, case, msg):
+    """failure classes (one report per class); none of them is a known finding once
+    fixes/F11-boost.patch is applied"""
+    for key, sig in (("no maintenance although", "C19-not-prompt"),
+                     ("not strictly less urgent", "C19-boosted-most-urgent"),
+                     ("out of bounds", "C19-boost-out-of-bounds"),
+                     ("LESS urgent", "C19-boost-less-urgent"),
+                     ("did not consider", "C19-straggler-not-considered"),
+                     ("ahead of a positional", "C19-regular-before-positional")):
+        if key in msg:
+            return sig
     return None
 
 
@@ -393,11 +517,12 @@ PROP = Prop(
     pid="C19",
     props_v="theories/Props/C19.v",
     theory_files=["theories/Queue/PQ.v", "theories/Queue/PosPQ.v", "theories/Queue/Exec.v",
-                  "theories/Queue/PQCorr.v", "theories/Queue/BoostOld.v", "theories/Queue/BoostProofs.v"],
+                  "theories/Queue/PQCorr.v", "theories/Queue/BoostCorr.v", "theories/Queue/BoostOld.v",
+                  "theories/Queue/BoostProofs.v"],
     streams=[
-        Stream(name="boost", imports=["Queue.PQCorr"], run="pos_run",
-               input_type="Q * list Q * list posop",
-               gen=gen, impl=impl_pos, to_coq=coq_pos, oracle=oracle, nontrivial=nontrivial,
+        Stream(name="boost", imports=["Queue.BoostCorr"], run="boost_run",
+               input_type="Q * (list Q * Z) * list (Z * list Z)",
+               gen=gen, impl=impl, to_coq=to_coq, oracle=oracle, nontrivial=nontrivial,
                shrink=shrink, describe=describe, corr_name="PosPriorityQueue-boosting"),
     ],
     rule="structured histories: 0..3 busy periods (width 1..6, 0..N pop/append pairs in either order, drained to "
